@@ -54,8 +54,13 @@ class TwistedServer(DatagramProtocol):
         """
 
         for pkt, key, addr in seq:
-            datagram = pkt.to_bytes(key)
-            self.transport.write(datagram, addr)
+            try:
+                datagram = pkt.to_bytes(key)
+                self.transport.write(datagram, addr)
+            except Exception as e:
+                # the datagram is lost. a packet that cannot be sent to one
+                # peer must not prevent sending to the remaining peers
+                self.ctxt.log.warning("%s:%d unable to send datagram: %s" % (addr[0], addr[1], e))
 
     def datagramReceived(self, datagram, addr):
         """ private called when a datagram is receeived from addr
